@@ -17,6 +17,8 @@ def jobs(pid, tier, seed):
     n = 450 if tier == "quick" else 9000
     out = [{"kind": "cfg", "seed": seed * 1000003 + i, "nvar": 4 if tier == "quick" else len(VARIANTS)} for i in range(n)]
     out += [{"kind": "list", "seed": seed * 1000003 + 500000 + i} for i in range(n)]
+    out += [{"kind": k, "seed": seed * 1000003 + 5000000 + i, "nvar": 4 if tier == "quick" else len(VARIANTS), "life": 1}
+            for i in range(n // 2) for k in ("cfg", "list")]
     out += [{"kind": "bulk_list", "n": nn, "allow_list": a} for nn in (1010, 1200) for a in (1, 0)]
     for name, params in scenarios.directed_for(pid, tier):
         out.append({"kind": "directed", "name": name, "params": params})
@@ -45,11 +47,12 @@ def run_job(pid, job, acc):
             run_hist(acc, hist, cfg, 0, case, nontrivial_keys=("list_answer",), keep_sample=(len(acc.samples) < 1), **opts)
         return
     s = job["seed"]
-    hist = generate(s, **GEN)
+    style = "life" if job.get("life") else None
+    hist = generate(s, style=style, **GEN)
     if job["kind"] == "list":
         # the `list` oracle itself (tracker), under listing allowed and disallowed
         cfg = Config(usage=(s % 2 == 0), blur=[None, 61][s % 2], allow_list=(s % 4 < 2))
-        g = generate(s, **dict(GEN, list_cmd=True))
+        g = generate(s, style=style, **dict(GEN, list_cmd=True))
         run_hist(acc, g, cfg, s, "list:%d" % s, nontrivial_keys=("list_answer",), quiesce=False,
                  keep_sample=(len(acc.samples) < 1))
         return
